@@ -38,6 +38,9 @@ type Case struct {
 	Must    string  `json:"must"`  // acceptance rule of the spec: "ok" | "err" | "any"
 	Model   string  `json:"model"` // outcome of the spec's abstract client (informational)
 	Info    bool    `json:"info"`  // informational RPC: the statement makes no binding claim
+	// SameKey: the transport's peer key is the contract's host key (false: the renter talks to the
+	// host over a transport identity with a different key).
+	SameKey bool `json:"samekey"`
 	// Unservable: a request the client accepts but the honest reference host refuses.
 	Unservable bool `json:"unservable"`
 	// Classes maps Fault.String() to the class the spec's Catalog gives the fault
@@ -51,7 +54,11 @@ func (c Case) Key() string {
 		fs[i] = f.String()
 	}
 	sort.Strings(fs)
-	return fmt.Sprintf("%s/v%d/%v", c.RPC, c.Variant, fs)
+	regime := ""
+	if !c.SameKey {
+		regime = "dk" // different keys
+	}
+	return fmt.Sprintf("%s/v%d%s/%v", c.RPC, c.Variant, regime, fs)
 }
 
 // A session is one prepared exchange: parameters chosen, contract normalised, ground truth and
@@ -80,6 +87,8 @@ type session struct {
 	corrupted  bool            // some host message was altered
 	void       map[string]bool // faults that were applied to a message the host sent and left its bytes unchanged
 	noWatchdog bool
+	// expectRev: the revision the renter derives in this exchange (what a host signs, with whatever key)
+	expectRev func() (types.V2FileContract, bool)
 	// wireOK reports whether the request the client put on the wire is the normal form of the
 	// caller's arguments (nil: not checked).  Evaluated after the exchange, if a stream was dialed.
 	wireOK   func() bool
